@@ -131,6 +131,24 @@ func (t *Tape) Enum(site string, n int) int {
 	return int(v)
 }
 
+// EnumAt is Enum with an explicit enumeration index k (record mode).
+func (t *Tape) EnumAt(site string, n int, k int) int {
+	if n <= 1 {
+		return 0
+	}
+	var v uint64
+	if t.Replay {
+		if t.pos < len(t.In) {
+			v = t.In[t.pos].Val % uint64(n)
+		}
+		t.pos++
+	} else {
+		v = uint64(k % n)
+	}
+	t.Out = append(t.Out, Entry{site, uint64(n - 1), v})
+	return int(v)
+}
+
 // Int returns a value in [lo, hi]; lo is the mild end.
 func (t *Tape) Int(site string, lo, hi int) int {
 	if hi <= lo {
